@@ -532,13 +532,29 @@ def run_case(op, x, d):
     """Evaluate the implementation; returns (coq_term, info) or None when the case must be discarded
     (non-finite or huge values: 1/0 has no counterpart in exact arithmetic)."""
     import odl
-    with np.errstate(all='ignore'):
+    try:
+        return _run_case(op, x, d)
+    except FloatingPointError:
+        return None          # a division by zero / invalid operation inside: no counterpart in exact arithmetic
+
+
+def _run_case(op, x, d):
+    import odl
+    with np.errstate(divide='raise', invalid='raise', over='ignore', under='ignore'):
         e = ser(op)
-        val = vals(op(x))
+        try:
+            val = vals(op(x))
+        except (TypeError, AttributeError, IndexError, odl.OpDomainError, odl.OpRangeError, odl.OpTypeError,
+                odl.set.space.LinearSpaceTypeError):
+            # only possible for second-order cases: the object returned by derivative() cannot be applied.
+            # An empty value list never matches the model's value: the case fails
+            val = []
         lin = bool(op.is_linear)
         try:
             Dop = op.derivative(x)
             raised = None
+        except FloatingPointError:
+            raise
         except Exception as ex:       # the model predicts WHETHER it raises, not the class
             Dop, raised = None, type(ex).__name__
         if Dop is not None:
@@ -1070,13 +1086,13 @@ def cd_check(op, x, d, rtol=1e-6):
         if est > 1e-4 * scale:
             return None, 'finite differences not converged at these steps (ill-conditioned point)'
         floors = [1e-11 * scale / h for h in HS]
-        tol = rtol * scale + floors[-1] + est
+        tol = rtol * scale + floors[-1] + 3 * est      # est may itself be a noise sample: margin 3
         close = errs[-1] <= tol
         # "at the rate expected of a central difference": where the error at h = 1e-3 is in the asymptotic
         # window (far above the rounding noise, below 1% of the scale) it must shrink by >= 20 per decade
         # (h^2 gives 100; measured minimum over 10^4 probes: 94)
         rate = True
-        if 1e-6 * scale < errs[1] < 1e-2 * scale and errs[2] > 0:
+        if 1e-6 * scale < errs[1] < 1e-2 * scale and errs[2] >= 10 * errs[3] > 0:   # noise not yet reached at h = 1e-4
             rate = errs[1] / errs[2] >= 20.0
         return bool(close and rate), 'central-difference errors %s at h=%s, scale %.3g, tol %.2e%s' % (
             ['%.2e' % e for e in errs], list(HS), scale, tol, '' if rate else ', error does not shrink like h^2')
